@@ -97,7 +97,7 @@ def depth_bound(G):
     return len(G) + 1
 
 
-SHAPES = ["chain", "diamond", "ind_cycle", "ind_cycle_base", "co_cycle", "nested", "mixed", "amb_cycle", "random", "random3"]
+SHAPES = ["chain", "diamond", "ind_cycle", "ind_cycle_base", "co_cycle", "nested", "mixed", "amb_cycle", "stale_member", "random", "random3"]
 
 
 def gen_graph(rng, shape=None, nmax=7):
@@ -142,6 +142,24 @@ def gen_graph(rng, shape=None, nmax=7):
             G[0] = (False, list(reversed(G[0][1])))
         if rng.random() < 0.3:
             G.append((False, [([1], False), ([0], False)]))
+    elif shape == "stale_member":
+        # head 0 -> member 1 -> 0 (a cycle); node 2 reaches the member AFTER it was popped (still provisional);
+        # the head's final value differs from its provisional one, so 2 must not be final before the head is:
+        # coinductive: a failing leaf 3 makes the head fail; inductive: a second clause makes the head succeed.
+        co = rng.random() < 0.5
+        if co:
+            G = [(True, [([1, 2, 3], False)]), (True, [([0], False)]), (True, [([1], False)]), (False, [])]
+        else:
+            G = [(False, [([1], False), ([2], False), ([], False)]), (False, [([0], False)]), (False, [([1], False)])]
+            if rng.random() < 0.5:
+                G[2] = (False, [([1], False), ([0], False)])
+        if rng.random() < 0.4:   # one more dependent node behind the member
+            G.append((co, [([2], False)]))
+            k = len(G) - 1
+            if co:
+                G[0] = (True, [([1, 2, k, 3], False)])
+            else:
+                G[0] = (False, [([1], False), ([2], False), ([k], False), ([], False)])
     else:
         three = shape == "random3"
         n = rng.randint(2, nmax)
